@@ -394,7 +394,7 @@ def _judge_generated(case: dict[str, Any], mode: str, render: Any, parse: Any, w
     pool = Pool(case)
     try:
         expr = pool.build(case["expr"])
-    except (ZeroDivisionError, ValueError, TypeError, AttributeError) as exc:
+    except (ZeroDivisionError, ValueError, TypeError, AttributeError, OverflowError, MemoryError, RecursionError) as exc:
         info["discard"] = f"build: {type(exc).__name__}"
         return [], info
     import sympy
